@@ -122,7 +122,13 @@ func (t Table) DDL() []string {
 }
 
 func (t Table) Migrate(ctx context.Context, pg Conn) error {
-	for _, stmt := range t.DDL() {
+	// The table first, then the columns it lacks, then the indexes:
+	// an index may name a column that only the diff below adds.
+	var create, indexes []string
+	if ddl := t.DDL(); len(ddl) > 0 {
+		create, indexes = ddl[:1], ddl[1:]
+	}
+	for _, stmt := range create {
 		if _, err := pg.Exec(ctx, stmt); err != nil {
 			return fmt.Errorf("table %q stmt %q: %w", t.Name, stmt, err)
 		}
@@ -140,6 +146,11 @@ func (t Table) Migrate(ctx context.Context, pg Conn) error {
 		)
 		if _, err := pg.Exec(ctx, q); err != nil {
 			return fmt.Errorf("adding column %s/%s: %w", t.Name, c.Name, err)
+		}
+	}
+	for _, stmt := range indexes {
+		if _, err := pg.Exec(ctx, stmt); err != nil {
+			return fmt.Errorf("table %q stmt %q: %w", t.Name, stmt, err)
 		}
 	}
 	return nil
